@@ -431,6 +431,7 @@ def witness_env(B, diff, seed):
 def execute(B, case, fn):
     """run one case -> JSON-able record"""
     t0 = time.time()
+    c0 = time.process_time()
     rec = dict(case=case, status="ok", entries=0, nonzero=0, digest="", mismatches=[], checks=[])
     try:
         checks = fn(B, case)
@@ -465,4 +466,5 @@ def execute(B, case, fn):
     rec["ops"] = B.ops_used()
     B.finish()
     rec["time_s"] = round(time.time() - t0, 4)
+    rec["cpu_s"] = round(time.process_time() - c0, 4)      # wall time means little on a loaded machine
     return rec
